@@ -38,6 +38,8 @@ CONSTANTS
 
 \* The interpreter of C05: TeX's instruction lookup (1039), TFtoPL's f(x,y), the main loop.
 LK == INSTANCE LigKern WITH Deviations <- {}, Bug <- ""
+\* The arithmetic of C17: PLtoTF's table compression (SetIndices)
+TA == INSTANCE TfmArith WITH Bug <- ""
 
 NonChar == 256
 \* 0-based access, as the file format counts; total, so that a malformed recorded file is judged, not
@@ -177,7 +179,10 @@ ItemsAt(F, R, eps, epf, i) ==
   IF i \notin R THEN <<>>
   ELSE (IF Lbe(F) = i THEN <<<<2>>>> ELSE <<>>)
        \o (IF i \in eps
-           THEN LET cs == SetToSortSeq({c \in DOMAIN epf : epf[c] = i}, <) IN [j \in 1 .. Len(cs) |-> <<1, cs[j]>>]
+           THEN LET cs == SetToSortSeq({c \in DOMAIN epf : epf[c] = i}, <)
+                    \* seeded: characters that share a chain are merged into one LABEL
+                    m  == IF Bug = "LabelsMerged" THEN 1 ELSE Len(cs)
+                IN [j \in 1 .. m |-> <<1, cs[j]>>]
            ELSE <<>>)
        \o OpItem(F, i) \o SkipItem(F, R, i)
 
@@ -265,20 +270,24 @@ PackLig(pp, rbc) ==
   IN [lk |-> rot \o lbw, u |-> st.u, off |-> off, red |-> st.red, kerns |-> kerns]
 
 -----------------------------------------------------------------------------
-(* PL -> TFM, dimension tables (PLtoTF 75-80 in the lossless case = compress) *)
+(* PL -> TFM, dimension tables: PLtoTF 75-80 = tfm::compress, which is C17's   *)
+(* subject -- the table and the index of every value are TfmArith.tla's         *)
+(* SetIndices on the sorted distinct values.  A font that comes from a .tfm     *)
+(* file never has more values than fit (255/15/15/63), so nothing is merged     *)
+(* and the table is: zero first, then the distinct values in increasing order.  *)
 
 SortUp(S) == SetToSortSeq(S, <)
-\* 0-based index of v in <<0>> \o SortUp(S)
-Rank(S, v) == 1 + Cardinality({u \in S : u < v})
-DimTable(S) ==
-  CASE Bug = "ZeroNotFirst" -> SortUp(S \cup {0})
-    [] OTHER                -> <<0>> \o SortUp(S)
+Rank(S, v) == 1 + Cardinality({u \in S : u < v})          \* position of v in SortUp(S)
+Compressed(S, limit) == TA!SetIndices(SortUp(S), limit)    \* [cls, rep]
+DimTable(cp) ==
+  CASE Bug = "ZeroNotFirst" -> SortUp(ToSet(cp.rep) \cup {0})
+    [] OTHER                -> <<0>> \o cp.rep
 \* vals: the value of every character (a function), for the seeded defect only
-DimIndex(S, vals, v, zeroIsNone) ==
+DimIndex(S, cp, vals, v, zeroIsNone) ==
   IF zeroIsNone /\ v = 0 THEN 0
   ELSE IF Bug = "DedupeUnstableIndex"       \* seeded: the index the value had before repetitions were removed
        THEN 1 + Cardinality({c \in DOMAIN vals : vals[c] < v /\ ~(zeroIsNone /\ vals[c] = 0)})
-  ELSE Rank(S, v)
+  ELSE cp.cls[Rank(S, v)]
 
 -----------------------------------------------------------------------------
 (* PL -> TFM, the whole file                                                 *)
@@ -295,6 +304,10 @@ FromPl(P) ==
       HS    == {P.chr[c].ht : c \in ex} \ {0}
       DS    == {P.chr[c].dp : c \in ex} \ {0}
       IS    == {P.chr[c].ic : c \in ex} \ {0}
+      cw    == Compressed(WS, 255)
+      ch    == Compressed(HS, 15)
+      cd    == Compressed(DS, 15)
+      ci    == Compressed(IS, 63)
       \* serialize.rs: extensible recipes in character order, one per VARCHAR
       xs    == SortUp({c \in ex : P.chr[c].tag[1] = 3 /\ (Bug # "TagLostOnZeroWidth" \/ P.chr[c].wd # 0)})
       xi(c) == SelectInSeq(xs, LAMBDA x : x = c) - 1
@@ -308,15 +321,15 @@ FromPl(P) ==
       ciw(c) ==
         IF c \in ex
         THEN LET r == P.chr[c]   t == tagw(c) IN
-             <<DimIndex(WS, [x \in ex |-> P.chr[x].wd], r.wd, FALSE),
-               16 * DimIndex(HS, [x \in ex |-> P.chr[x].ht], r.ht, TRUE) + DimIndex(DS, [x \in ex |-> P.chr[x].dp], r.dp, TRUE),
-               4 * DimIndex(IS, [x \in ex |-> P.chr[x].ic], r.ic, TRUE) + t[1], t[2]>>
+             <<DimIndex(WS, cw, [x \in ex |-> P.chr[x].wd], r.wd, FALSE),
+               16 * DimIndex(HS, ch, [x \in ex |-> P.chr[x].ht], r.ht, TRUE) + DimIndex(DS, cd, [x \in ex |-> P.chr[x].dp], r.dp, TRUE),
+               4 * DimIndex(IS, ci, [x \in ex |-> P.chr[x].ic], r.ic, TRUE) + t[1], t[2]>>
         ELSE LET t == tagw(c) IN <<0, 0, t[1], t[2]>>
       \* PLtoTF 110-112 on the parsed file = on the font that is written
       hd0   == <<P.cs, P.ds>> \o EncStr(StrDefault(P.scheme), 10) \o EncStr(StrDefault(P.family), 5)
       G0    == [hd |-> hd0 \o <<<<0, 0, 0, P.face>>>> \o P.extra, bc |-> bc, ec |-> ec,
                 ci |-> [j \in 1 .. (ec - bc + 1) |-> ciw(bc + j - 1)],
-                w |-> DimTable(WS), h |-> DimTable(HS), d |-> DimTable(DS), i |-> DimTable(IS),
+                w |-> DimTable(cw), h |-> DimTable(ch), d |-> DimTable(cd), i |-> DimTable(ci),
                 lk |-> pk.lk, k |-> pk.kerns, e |-> [j \in 1 .. Len(xs) |-> P.chr[xs[j]].tag[2]], p |-> P.par]
   IN [G0 EXCEPT !.hd[18] = <<IF SevenBitSafe(G0) THEN 128 ELSE 0, 0, 0, P.face>>]
 
